@@ -310,6 +310,39 @@ def _(S, z):
     return [q], lambda: pb.freq_shift(z, q)
 
 
+@op("freq_shift-array-Hz", "baseband", None, 2)
+def _(S, z):
+    # a per-channel shift array already in Hz (to_value(u.Hz) then hands out the caller's own buffer, not a copy)
+    ms = [S.int(f"m{k}", -2, 2) for k in range(2)]
+    half = Fraction(1, 2)
+    if S.symbolic:
+        vals = np.array([SReal(z3.ToReal(m.e)) * half * 1000 * SReal(rterm(z.sample_rate.value[()] if hasattr(z.sample_rate.value, "shape") else z.sample_rate.value)) for m in ms], dtype=object)
+        q = S.quantity(SymND(vals, np.float64), u.Hz)
+    else:
+        q = np.array([float(m) * 0.5 * z.sample_rate.to_value(u.Hz) for m in ms]) * u.Hz
+    return [q], lambda: pb.freq_shift(z, q)
+
+
+@op("dm-delays-and-chirp", "baseband", None, 2)
+def _(S, z):
+    # the REAL DispersionMeasure methods (not the stub used by the dedispersion operations below) with frequency arguments in units
+    # other than MHz: neither the argument Quantities nor the signal's own center_freq (passed by reference) may be rescaled
+    dm = S.real("dm")
+    S.assume(dm > -100)
+    S.assume(dm < 100)
+    f, g = S.real("fa"), S.real("fb")
+    for x in (f, g):
+        S.assume(x > Fraction(1, 10))
+        S.assume(x < 10)
+    DM = pb.DM(np.array(dm, dtype=object), dtype=object) if S.symbolic else pb.DM(dm)
+    fq, gq = S.quantity(f, u.GHz), S.quantity(g * 10**9, u.Hz)
+    sr = 1 * u.kHz
+
+    def run():
+        return (DM.time_delay(fq, gq), DM.sample_delay(gq, fq, sr), DM.time_delay(z.center_freq, gq), DM.sample_delay(fq, z.center_freq, sr))
+    return [fq, gq, DM], run
+
+
 @op("fast_len", "signal", "strided", 4)
 def _(S, z):
     return [], lambda: pb.fast_len(z)
